@@ -41,6 +41,7 @@ theorem inv_step (derive : Bool → Stack → Stack) (one : V) (s : St V) (op : 
   | editRow i row => left; rfl
   | observe => exact inv_ensure derive one s h
   | setFitness v => exact h
+  | resetFlag => exact h
   | setConsts p =>
     cases hm : s.modified with
     | true => left; exact hm
